@@ -145,7 +145,7 @@ def judge_functions(case):
 # ---------------------------------------------------------------------------
 # class level
 # ---------------------------------------------------------------------------
-CLASSES = ["SSIdat", "SSIcov", "SSIcov_unc", "SSIcov_R", "SSIdat_MS", "SSIcov_MS", "pLSCF", "pLSCF_MS"]
+CLASSES = ["SSIdat", "SSIcov", "SSIcov_unc", "SSIcov_R", "SSIdat_MS", "SSIcov_MS", "SSIcov_R_MS", "pLSCF", "pLSCF_MS"]
 
 
 @st.composite
@@ -159,7 +159,9 @@ def class_case(draw, alg):
          # every criterion is switched off (neutral value) in a good share of the cases, alone and together
          "xi_max": draw(st.one_of(st.sampled_from([0.05, 0.1, 0.2, 1.0, 1.0]), st.floats(0.01, 1.0))),
          "mpc_lim": draw(st.one_of(st.sampled_from([0.0, 0.0, 0.0, 0.5, 0.7, 0.9]), st.floats(0, 1))),
-         "mpd_lim": draw(st.one_of(st.sampled_from([PI2, PI2, PI2, 0.1, 0.3, 0.8]), st.floats(0.0, PI2))),
+         "mpd_lim": draw(st.one_of(st.sampled_from([PI2, PI2, PI2, 0.1, 0.3, 0.8, 0.0]), st.floats(0.0, PI2))),  # 0.0 = the lower end of the allowed range
+         "hc_order": draw(st.permutations(["conj", "xi_max", "mpc_lim", "mpd_lim", "cov_max"])),  # the user's own key order
+         "decoy": draw(st.booleans()),
          "ordmin": draw(st.sampled_from([0, 0, 1, 2, 3])),
          "cov_max": draw(st.sampled_from([1e-4, 1e-2, 0.2, 1e6])),
          "nxseg": draw(st.sampled_from([128, 256])), "method_SD": draw(st.sampled_from(["per", "cor"])),
@@ -190,8 +192,8 @@ def _unfiltered(case, data, fs, ref_ind):
         Obs, A, C, Q1, Q2, Q3, Q4 = ssi.SSI_fast(H, case["br"], case["ordmax"], step=1, calc_unc=unc, T=T, nb=10)
         Fn, Xi, Phi, Lam, Fc, Xc, Pc = ssi.SSI_poles(Obs, A, C, case["ordmax"], dt, step=1, calc_unc=unc, Q1=Q1, Q2=Q2, Q3=Q3, Q4=Q4)
         return dict(Fn=Fn, Xi=Xi, Phi=Phi, Lam=Lam, Fn_cov=Fc, Xi_cov=Xc)
-    if alg in ("SSIdat_MS", "SSIcov_MS"):
-        Obs, A, C = ssi.SSI_multi_setup(data, fs, case["br"], case["ordmax"], step=1, method_hank="dat" if alg == "SSIdat_MS" else "cov_mm")
+    if alg in ("SSIdat_MS", "SSIcov_MS", "SSIcov_R_MS"):
+        Obs, A, C = ssi.SSI_multi_setup(data, fs, case["br"], case["ordmax"], step=1, method_hank={"SSIdat_MS": "dat", "SSIcov_MS": "cov_mm", "SSIcov_R_MS": "cov_R"}[alg])
         Fn, Xi, Phi, Lam, _, _, _ = ssi.SSI_poles(Obs, A, C, case["ordmax"], dt, step=1, calc_unc=False)
         return dict(Fn=Fn, Xi=Xi, Phi=Phi, Lam=Lam, Fn_cov=None, Xi_cov=None)
     sgn = -1 if case["method_SD"] == "per" else +1
@@ -210,6 +212,7 @@ def judge_class(case):
     alg = case["alg"]
     S = modal.Sys(case["sys"])
     hc = dict(conj=case["conj"], xi_max=case["xi_max"], mpc_lim=case["mpc_lim"], mpd_lim=case["mpd_lim"], cov_max=case["cov_max"])
+    hc = {k_: hc[k_] for k_ in case.get("hc_order", list(hc))}
     j.tag(alg, "conj_on" if case["conj"] else "conj_off")
     ms = alg.endswith("_MS")
     ref_ind = None
@@ -242,15 +245,24 @@ def judge_class(case):
         hcp = {k_: v for k_, v in hc.items() if k_ != "cov_max"}
         a = cls(name="a", ordmax=case["ordmax"], ordmin=min(case.get("ordmin", 0), case["ordmax"] - 1), nxseg=case["nxseg"], method_SD=case["method_SD"], hc=hcp)
     else:
-        cls = {"SSIdat": SSIdat, "SSIcov": SSIcov, "SSIcov_unc": SSIcov, "SSIcov_R": SSIcov, "SSIdat_MS": SSIdat_MS, "SSIcov_MS": SSIcov_MS}[alg]
+        cls = {"SSIdat": SSIdat, "SSIcov": SSIcov, "SSIcov_unc": SSIcov, "SSIcov_R": SSIcov, "SSIdat_MS": SSIdat_MS, "SSIcov_MS": SSIcov_MS, "SSIcov_R_MS": SSIcov_MS}[alg]
         kw = dict(name="a", br=case["br"], ordmax=case["ordmax"], ordmin=min(case.get("ordmin", 0), case["ordmax"]), hc=hc)
         if alg == "SSIcov_unc":
             kw.update(calc_unc=True, nb=10)
-        if alg == "SSIcov_R":
+        if alg in ("SSIcov_R", "SSIcov_R_MS"):
             kw.update(method="cov_R")
         if ref_ind is not None:
             kw["ref_ind"] = ref_ind
         a = cls(**kw)
+    if case.get("decoy"):
+        # another algorithm of the same class with much stricter criteria, created afterwards and never added to a setup
+        strict = dict(conj=True, xi_max=1e-6, mpc_lim=0.999, mpd_lim=1e-6, cov_max=1e-12)
+        if alg in ("pLSCF", "pLSCF_MS"):
+            strict.pop("cov_max")
+            sut(lambda: cls(name="decoy", ordmax=case["ordmax"], nxseg=case["nxseg"], hc=strict))
+        else:
+            sut(lambda: cls(name="decoy", br=case["br"], ordmax=case["ordmax"], hc=strict))
+        j.tag("decoy-algorithm")
     setup.add_algorithms(a)
     if case.get("first_hc"):
         first = dict(case["first_hc"])
